@@ -56,7 +56,12 @@ func (r *FnRun) guardGoal(st *State, owner types.Type, ownerRef, lockSpec string
 		}
 		_ = r.fa(o.Type(), lf, "0")
 		id := r.eng.faIDs[mangle("fa:"+r.tn(o.Type())+"."+lf)]
-		goal = fmt.Sprintf("(exists ((l Int)) (and (= (objkind l) %d) %s))", id, need("(select "+held+" l)"))
+		// candidates: every lock identity this path has named (acquired, or mentioned in a requires clause)
+		var ds []string
+		for _, c := range r.lockCands {
+			ds = append(ds, sAnd(fmt.Sprintf("(= (objkind %s) %d)", c, id), need("(select "+held+" "+c+")")))
+		}
+		goal = sOr(ds...)
 	} else {
 		lock := r.fa(owner, lockSpec, ownerRef)
 		goal = need(sSel(held, lock))
@@ -143,3 +148,12 @@ func (r *FnRun) mapAccessCheck(st *State, fr *frame, ins ssa.Instruction, mapVal
 // lockInvAcquire: hook for lock invariants (assumed on acquire). Declared per type as
 // "type T lockinv l: expr" – not yet used.
 func (r *FnRun) lockInvAcquire(st *State, fr *frame, instr ssa.Instruction, id string) {}
+
+func (r *FnRun) addLockCand(id string) {
+	for _, c := range r.lockCands {
+		if c == id {
+			return
+		}
+	}
+	r.lockCands = append(r.lockCands, id)
+}
